@@ -323,26 +323,29 @@ Section Fit.
     | _, _ => inr ErrUnmodelled
     end.
 
-  Definition residual_step (ff : fit_facts) (k : fit_kind) (S : settings) (st : mstate) (u : list (name * T))
-    : mstate * rloss :=
+  (** what the residual returns for a simulation outcome (a pure function of the outcome) *)
+  Definition score (ff : fit_facts) (k : fit_kind) (S : settings) (out : sim_out) : rloss :=
     let rf := res_facts ff k in
-    match apply_phases S u (rf_order rf) st with
-    | (st1, Some e) => (st1, RErr e)
-    | (st1, None) =>
-        match simulate k S st1 with
-        | (st2, SimErr e) => (st2, RErr e)
-        | (st2, SimFail) => (st2, match rf_fail rf with FailInf => RInf | FailUnknown => RErr ErrUnmodelled end)
-        | (st2, SimRows rows) =>
-            match prediction (rf_select rf) k S rows with
-            | inr e => (st2, RErr e)
-            | inl None => (st2, RErr ErrUnmodelled)
-            | inl (Some pred) =>
-                match settings_loss ff (s_loss S) (s_scale S) (s_data S) pred with
-                | Some v => (st2, RVal v)
-                | None => (st2, RErr ErrUnmodelled)
-                end
+    match out with
+    | SimErr e => RErr e
+    | SimFail => match rf_fail rf with FailInf => RInf | FailUnknown => RErr ErrUnmodelled end
+    | SimRows rows =>
+        match prediction (rf_select rf) k S rows with
+        | inr e => RErr e
+        | inl None => RErr ErrUnmodelled
+        | inl (Some pred) =>
+            match settings_loss ff (s_loss S) (s_scale S) (s_data S) pred with
+            | Some v => RVal v
+            | None => RErr ErrUnmodelled
             end
         end
+    end.
+
+  Definition residual_step (ff : fit_facts) (k : fit_kind) (S : settings) (st : mstate) (u : list (name * T))
+    : mstate * rloss :=
+    match apply_phases S u (rf_order (res_facts ff k)) st with
+    | (st1, Some e) => (st1, RErr e)
+    | (st1, None) => let '(st2, out) := simulate k S st1 in (st2, score ff k S out)
     end.
 
   (** *** minimisers as strategy trees *)
